@@ -797,7 +797,7 @@ Qed.
 
 (* witness: two endpoints, the second marked; it is mounted and in neither document *)
 Definition w_marked : mdesign :=
-  mkmd [mkms [mkme (plain_ep GET [Lit 1]) true; mkme (plain_ep POST [Lit 2]) false] [] true] [] [].
+  mkmd [mkms [mkme (plain_ep GET [Lit 1]) true; mkme (plain_ep POST [Lit 2]) false] [] true false] [] [].
 
 Lemma marked_example :
   In (POST, [Lit 2]) (map nkey (server_ops (mounted w_marked))) /\
@@ -830,18 +830,21 @@ Proof.
   apply andb_true_iff in H. destruct H as [E H]. rewrite (norm_seg_eqb _ _ E), (IH _ H). reflexivity.
 Qed.
 
-(* every path of a route that is not absolute starts with the API base path (what
-   RouteExpr.FullPaths builds for a service whose own path is relative) *)
+(* every path of a route that is not absolute, in a service whose own path is not absolute,
+   starts with the API base path (what RouteExpr.FullPaths builds: API path, service path,
+   route path joined) *)
 Definition rooted (d : design) :=
-  forall e r p, endpoint_of d e -> In r (routes e) -> rabs r = false -> In p (rpaths r) -> is_prefix (api_base d) p = true.
+  forall s e r p, In s (services d) -> In e (endpoints s) -> In r (routes e) -> rabs r = false -> sabs s = false ->
+                  In p (rpaths r) -> is_prefix (api_base d) p = true.
 
-Lemma has_abs_false d e r : has_abs d = false -> endpoint_of d e -> In r (routes e) -> rabs r = false.
+Lemma has_abs_false d s e r : has_abs d = false -> In s (services d) -> In e (endpoints s) -> In r (routes e) ->
+  rabs r = false /\ sabs s = false.
 Proof.
-  unfold has_abs. intros H [s [Hs He]] Hr. destruct (rabs r) eqn:A; [|reflexivity].
-  assert (X : existsb (fun s => existsb (fun e => existsb rabs (routes e)) (endpoints s)) (services d) = true).
-  { apply existsb_exists. exists s. split; [assumption|]. apply existsb_exists. exists e. split; [assumption|].
-    apply existsb_exists. exists r. auto. }
-  congruence.
+  unfold has_abs. intros H Hs He Hr.
+  destruct (rabs r) eqn:A; destruct (sabs s) eqn:B; try (split; reflexivity); exfalso;
+    (assert (X : existsb (fun s => existsb (fun e => existsb rabs (routes e) || sabs s) (endpoints s)) (services d) = true);
+     [apply existsb_exists; exists s; split; [assumption|]; apply existsb_exists; exists e; split; [assumption|];
+      apply orb_true_iff; first [right; assumption | left; apply existsb_exists; exists r; auto] | congruence]).
 Qed.
 
 Lemma has_files_false d f : has_files d = false -> ~ file_of d f.
@@ -867,8 +870,8 @@ Proof.
   destruct (has_abs d) eqn:HA; simpl; [left; reflexivity|]. destruct (has_files d) eqn:HF; simpl; [left; reflexivity|].
   right. apply (doc_ops_origin _ v2_sound) in H. destruct H as [k [v [od [Hin [_ ->]]]]]. simpl.
   apply in_assigns2 in Hin. destruct Hin as [[e [p [He [H1 [-> _]]]]]|[f [Hf _]]].
-  - destruct (in_ep_entries _ _ _ H1) as [r [Hr [_ Hp]]]. apply is_prefix_norm.
-    apply (R e r p He Hr (has_abs_false d e r HA He Hr) Hp).
+  - destruct (in_ep_entries _ _ _ H1) as [r [Hr [_ Hp]]]. apply is_prefix_norm. destruct He as [s [Hs He]].
+    destruct (has_abs_false d s e r HA Hs He Hr) as [A B]. apply (R s e r p Hs He Hr A B Hp).
   - destruct (has_files_false d f HF Hf).
 Qed.
 
@@ -876,20 +879,20 @@ Qed.
 Lemma doc2_full_keys d k : has_abs d || has_files d = true -> v2_key (norm (v2_base d)) k = k.
 Proof. intro H. unfold v2_base. rewrite H. reflexivity. Qed.
 
-(* finding: a service whose own path is absolute ("//abs") under an API base path: its
-   routes are not absolute, the base path is kept, the key is written in full, and the
-   document resolves to a path the server does not mount *)
+(* regression example (was a finding, fix of hasAbsoluteRoutes): a service whose own path is
+   absolute ("//abs") under an API base path gives the base path up, every key is written in
+   full and resolves to what is mounted; the design is rooted although /5/6 is not under /9 *)
 Definition w_svcabs : design :=
-  mkd [mks [plain_ep GET [Lit 5; Lit 6]; plain_ep GET [Lit 9; Lit 7]] []] [] [Lit 9].
+  mkd [mksa [plain_ep GET [Lit 5; Lit 6]] [] true; mks [plain_ep GET [Lit 9; Lit 7]] []] [] [Lit 9].
 
-Lemma svcabs_refuted_l :
-  exists d o, has_abs d = false /\ has_files d = false /\ In o (doc2_ops d) /\ In o (server_ops d) /\
-    v2_resolve (norm (v2_base d)) (v2_key (norm (v2_base d)) (opath o)) <> opath o /\
-    ~ In (overb o, v2_resolve (norm (v2_base d)) (v2_key (norm (v2_base d)) (opath o))) (map nkey (server_ops d)).
+Lemma svcabs_example :
+  rooted w_svcabs /\ has_abs w_svcabs = true /\ v2_base w_svcabs = [] /\
+  doc2_written w_svcabs (doc2_ops w_svcabs) = [(GET, [Lit 5; Lit 6]); (GET, [Lit 9; Lit 7])] /\
+  doc2_resolved w_svcabs (doc2_ops w_svcabs) = doc2_ops w_svcabs /\
+  map nkey (server_ops w_svcabs) = map okey (doc2_ops w_svcabs).
 Proof.
-  exists w_svcabs, (mko GET [Lit 5; Lit 6] [] false [204] []).
-  split; [reflexivity|]. split; [reflexivity|]. split; [vm_compute; auto|]. split; [vm_compute; auto|].
-  split; [vm_compute; discriminate | not_in].
+  split; [|vm_compute; repeat split].
+  intros s e r p [<-|[<-|[]]] [<-|[]] [<-|[]] _ B [<-|[]]; [discriminate B | reflexivity].
 Qed.
 
 (* non-vacuity: a rooted design; the keys are written without the base path *)
@@ -902,7 +905,7 @@ Lemma based_example :
   map (fun vk => v2_resolve [Lit 9] (snd vk)) (doc2_written w_based (doc2_ops w_based)) = map opath (doc2_ops w_based).
 Proof.
   split; [|vm_compute; auto].
-  intros e r p [s [[<-|[]] [<-|[<-|[]]]]] [<-|[]] _ [<-|[]]; reflexivity.
+  intros s e r p [<-|[]] [<-|[<-|[]]] [<-|[]] _ _ [<-|[]]; reflexivity.
 Qed.
 
 Lemma doc2_resolved_id d : rooted d -> doc2_resolved d (doc2_ops d) = doc2_ops d.
